@@ -23,6 +23,7 @@ R2 == Branch(<<SetK("k", 6), SetN("n", "b", 4)>>, "fr", None, "")
 SRC == Branch(<<>>, "src", None, "")
 AllTemplates == {S1, S2, S3, S4, F1, F2, F3, F4, F5, R1, R2, SRC}
 FewTemplates == {S1, S3, S4, F1, F3, R1, SRC}
+FillFew == {F1, F3, F5, R1, R2}
 
 \* flow values "without pre-existing aliasing": every value has its own data list and context
 X(j) == [d |-> <<j>>,
